@@ -35,7 +35,10 @@ def run(tier, seed, scale=1.0):
     n = int((30000 if tier == "quick" else 2000000) * scale)
     res = vdriver.explore(common.spec("simnet", "addr", seed), n, chunk=max(250, n // 128), chunk_timeout=900)
     # the search profile also checks that addresses come from the winning candidate only (addr:* keys)
-    res.merge(vdriver.explore(common.spec("simnet", "search", seed), n, chunk=max(250, n // 128), chunk_timeout=900))
+    # (these cases are cheap and the histories that matter - an AF_UNSPEC candidate whose two questions end differently -
+    # are a small share of them: three times as many as address cases in the quick tier)
+    n2 = n * 3 if tier == "quick" else n
+    res.merge(vdriver.explore(common.spec("simnet", "search", seed), n2, chunk=max(250, n2 // 128), chunk_timeout=900))
     return common.finish(PROP, tier, seed, "exploration", res, own, RULE, t0, min_conclusive=int(3000 * scale),
                          assumptions=["owner names of address records follow the CNAME chain (c-ares does not check owners, "
                                       "by its own documented choice)"])
